@@ -15,7 +15,11 @@
      (SyncTasks._poll_queue) drains the job queue right after;
    * threaded flavours: a dial that succeeds after disconnect()/stop() cleared
      transport.protocol is not modelled (the reader thread dies on the None protocol and
-     ReaderThread.connect can hang): AttemptOk is ignored there. *)
+     ReaderThread.connect can hang): AttemptOk is ignored there.
+
+   All four connect loops test `transport.protocol` at the top of every iteration (the
+   asyncio ones since the D21 repair): a loop that finds the reference cleared by
+   disconnect()/stop() ends without a further dial ([guard], [start_dial]). *)
 From Coq Require Import List ZArith Bool.
 From PMS Require Import Gen.SupConsts Model.Watchdog.
 Import ListNotations.
@@ -83,6 +87,11 @@ Definition out := list output.
    Watchdog.wd_check. *)
 Section Control.
 Variables (add zmax : Z -> Z -> Z) (leb : Z -> Z -> bool) (wdc : Z -> Z -> Z -> Z -> wd_res).
+(* what the two asyncio connect loops test: `while transport.protocol:` (true) or
+   `while True:` (false).  Section variables, so that the header the code had before the
+   D21 repair ([step_unfixed] below) is the same transcription with the other value; the
+   model proper instantiates them with the generated aser/atcp_guard_protocol. *)
+Variables (ag_ser ag_tcp : bool).
 
 Definition applies (c : recon_cond) (exc : bool) : bool :=
   match c with RcOnExc => exc | RcAlways => true | RcNever => false end.
@@ -92,7 +101,8 @@ Definition guard (fl : flavour) (s : st) : bool :=
   match fl with
   | SyncSerial => if sser_guard_protocol then tp s else true
   | SyncTcp => if stcp_guard_protocol then tp s else true
-  | AsyncSerial | AsyncTcp => true
+  | AsyncSerial => if ag_ser then tp s else true
+  | AsyncTcp => if ag_tcp then tp s else true
   end.
 
 Definition fail_of (fl : flavour) : fail_kind :=
@@ -291,7 +301,12 @@ Definition goutputs (fl : flavour) (p : params) (s : st) (es : list event) : out
 End Control.
 
 (* the model *)
-Definition step := gstep Z.add Z.max Z.leb wd_check.
-Definition run := grun Z.add Z.max Z.leb wd_check.
-Definition final := gfinal Z.add Z.max Z.leb wd_check.
-Definition outputs := goutputs Z.add Z.max Z.leb wd_check.
+Definition step := gstep Z.add Z.max Z.leb wd_check aser_guard_protocol atcp_guard_protocol.
+Definition run := grun Z.add Z.max Z.leb wd_check aser_guard_protocol atcp_guard_protocol.
+Definition final := gfinal Z.add Z.max Z.leb wd_check aser_guard_protocol atcp_guard_protocol.
+Definition outputs := goutputs Z.add Z.max Z.leb wd_check aser_guard_protocol atcp_guard_protocol.
+
+(* HISTORY (finding D21): the asyncio connect loops as they were before the repair
+   (`while True:`), everything else as now.  Used only by the _unfixed_refuted theorem. *)
+Definition step_unfixed := gstep Z.add Z.max Z.leb wd_check false false.
+Definition outputs_unfixed := goutputs Z.add Z.max Z.leb wd_check false false.
